@@ -219,6 +219,30 @@ def _store_array(
                 )
                 warn(warn_msg, stacklevel=2)
                 source = source.rechunk(target.shards)
+    if is_storage_array(target) and (
+        region is None or all(r == slice(None) for r in region)
+    ):
+        if tuple(target.shape) != tuple(source.shape):
+            raise ValueError(
+                f"Source array shape {source.shape} does not match target shape {tuple(target.shape)}"
+            )
+        try:
+            target_chunks = target.chunks
+        except NotImplementedError:
+            # rectilinear chunk grids don't support .chunks
+            target_chunks = None
+        # Each task writes one source chunk, so a source chunk must cover whole target chunks,
+        # otherwise concurrent tasks write to the same target chunk and lose each other's data.
+        if target_chunks is not None and any(
+            sc % tc != 0 and sc < n
+            for sc, tc, n in zip(source.chunksize, target_chunks, source.shape)
+        ):
+            warn_msg = (
+                "Source chunks do not align with the chunks of the target array. "
+                "Rechunking will be applied to match the target chunk size and prevent data corruption."
+            )
+            warn(warn_msg, stacklevel=2)
+            source = source.rechunk(tuple(target_chunks))
     if not is_storage_array(target):
         target = lazy_zarr_array(
             target,
